@@ -29,11 +29,13 @@ def read_gro(path):
             "extra_lines": rest[1:]}
 
 
-def write_gro_text(title, atoms, box):
-    """atoms: list of (resid, resname, atomname, x, y, z)"""
+def write_gro_text(title, atoms, box, atom_numbers=None):
+    """atoms: list of (resid, resname, atomname, x, y, z); atom_numbers: the numbers written in the atom-number column
+    (default 1, 2, 3 ...; GROMACS does not read them, files pasted together restart them)"""
     out = [title, f"{len(atoms)}"]
     for i, (resid, resname, aname, x, y, z) in enumerate(atoms):
-        out.append(f"{resid % 100000:5d}{resname:<5s}{aname:>5s}{(i + 1) % 100000:5d}{x:8.3f}{y:8.3f}{z:8.3f}")
+        no = (i + 1) if atom_numbers is None else atom_numbers[i]
+        out.append(f"{resid % 100000:5d}{resname:<5s}{aname:>5s}{no % 100000:5d}{x:8.3f}{y:8.3f}{z:8.3f}")
     out.append(" ".join(repr(float(b)) for b in box))
     return "\n".join(out) + "\n"
 
